@@ -51,10 +51,18 @@ theorem allGone_iff (g : Ag → Bool) (n : Nat) :
 
 def isErrOf (r : Res) (v : Nat) : Prop := r = .closedV v ∨ r = .sentV v
 
-/-- I1: control -/
-structure I1 (s : State) : Prop where
+/-- number of `i < n` with `d i = false` -/
+def cntF (d : Nat → Bool) : Nat → Nat
+  | 0 => 0
+  | n + 1 => cntF d n + (if d n then 0 else 1)
+
+/-- J1: control (which call a mic belongs to) -/
+structure J1 (s : State) : Prop where
   kSend : ∀ a, (s.loc a).k = .send → a.isS = true
   bodyK : ∀ a, inBody (s.loc a).m → (s.loc a).k = .send
+
+/-- J2: handles, Arc, teardown -/
+structure J2 (s : State) : Prop where
   freshM : ∀ i, s.nextH ≤ i → (s.loc (.S i)).m = .idle
   freshP : ∀ i, s.nextH ≤ i → s.prog (.S i) = []
   freshG : ∀ i, s.nextH ≤ i → s.gone (.S i) = false
@@ -65,6 +73,9 @@ structure I1 (s : State) : Prop where
   freedR : s.freed = true → s.gone .R = true
   freedS : ∀ i, s.freed = true → i < s.nextH → s.gone (.S i) = true
   freedF : ∀ a, s.freed = true → (s.loc a).m ≠ .fLdState
+
+/-- J3: the receiver's own flag guards its side -/
+structure J3 (s : State) : Prop where
   ciCl : ∀ a, (s.loc a).m = .ciStRdrop → s.closed .R = true
   rdropCl : s.rdrop = true → s.closed .R = true
   recvOpen : inRecvBody (s.loc .R).m → s.closed .R = false
@@ -82,24 +93,30 @@ structure I3 (s : State) : Prop where
   tkU : ∀ a, s.taker = some a → inT (s.loc a).m
   tkSt : s.taker ≠ none → s.st = .taken
   tkSl : s.taker ≠ none → s.slot ≠ none
-  dead1 : ∀ a, (s.loc a).m ≠ .tStClosed
-  dead2 : ∀ a, (s.loc a).m ≠ .tLdState2
-  dead3 : ∀ a, (s.loc a).m ≠ .tLdCount2
   slotS : s.st = .sent → s.slot ≠ none ∨ s.freed = true
   slotU : s.slot ≠ none → s.st = .sent ∨ s.taker ≠ none ∨ ∃ i, s.writer = some i ∧ (s.loc (.S i)).m = .sSwapSent
   swapSl : ∀ a, (s.loc a).m = .sSwapSent → s.slot ≠ none
-  casSent : (s.loc .R).m = .tCasST → s.st = .sent
   freedSl : s.freed = true → s.slot = none
 
-/-- I4: token accounting and per-handle send history -/
+/-- I3b: `try_recv`'s corrupt-state arms are dead code -/
+structure I3b (s : State) : Prop where
+  dead1 : ∀ a, (s.loc a).m ≠ .tStClosed
+  dead2 : ∀ a, (s.loc a).m ≠ .tLdState2
+  dead3 : ∀ a, (s.loc a).m ≠ .tLdCount2
+  casSent : (s.loc .R).m = .tCasST → s.st = .sent
+
+/-- I4: token accounting -/
 structure I4 (s : State) : Prop where
   acct : (s.moved = [] ∧ s.slot = none ∧ s.received = [] ∧ s.dropped = []) ∨
          ∃ v, s.moved = [v] ∧ ((s.slot = some v ∧ s.received = [] ∧ s.dropped = []) ∨
                                (s.slot = none ∧ s.received = [v] ∧ s.dropped = []) ∨
                                (s.slot = none ∧ s.received = [] ∧ s.dropped = [v]))
   movedE : s.moved = [] ↔ s.mover = none
-  movedV : ∀ i, s.mover = some i → ∃ v, s.sval i = some v ∧ s.moved = [v]
   movedSt : s.moved ≠ [] → s.st = .sent ∨ s.st = .taken ∨ ∃ i, s.writer = some i ∧ (s.loc (.S i)).m = .sSwapSent
+
+/-- I4b: per-handle send history -/
+structure I4b (s : State) : Prop where
+  movedV : ∀ i, s.mover = some i → ∃ v, s.sval i = some v ∧ s.moved = [v]
   swapMv : ∀ a, (s.loc a).m = .sSwapSent → s.mover = some a.idx
   inSend : ∀ a, (s.loc a).k = .send → s.sval a.idx = some (s.loc a).v
   bodyRes : ∀ a, inBody (s.loc a).m → s.sres a.idx = none
@@ -107,12 +124,18 @@ structure I4 (s : State) : Prop where
   resOk : ∀ i, s.sres i = some .ok → s.mover = some i
   moverRes : ∀ i, s.mover = some i → s.sres i = some .ok ∨ (s.loc (.S i)).m = .sSwapSent
 
-theorem i1_init (progS : Nat → List Op) (progR : List Op) : I1 (init progS progR) := by
-  constructor <;> simp [init, inBody, inRecvBody, isEnd]
+theorem j1_init (progS : Nat → List Op) (progR : List Op) : J1 (init progS progR) := by
+  constructor <;> simp [init, inBody]
+
+theorem j2_init (progS : Nat → List Op) (progR : List Op) : J2 (init progS progR) := by
+  constructor <;> simp [init, isEnd]
   intro i hi
   cases i with
   | zero => omega
   | succ n => rfl
+
+theorem j3_init (progS : Nat → List Op) (progR : List Op) : J3 (init progS progR) := by
+  constructor <;> simp [init, inRecvBody]
 
 theorem i2_init (progS : Nat → List Op) (progR : List Op) : I2 (init progS progR) := by
   constructor <;> simp [init, inW]
@@ -120,7 +143,13 @@ theorem i2_init (progS : Nat → List Op) (progR : List Op) : I2 (init progS pro
 theorem i3_init (progS : Nat → List Op) (progR : List Op) : I3 (init progS progR) := by
   constructor <;> simp [init, inT]
 
+theorem i3b_init (progS : Nat → List Op) (progR : List Op) : I3b (init progS progR) := by
+  constructor <;> simp [init]
+
 theorem i4_init (progS : Nat → List Op) (progR : List Op) : I4 (init progS progR) := by
+  constructor <;> simp [init]
+
+theorem i4b_init (progS : Nat → List Op) (progR : List Op) : I4b (init progS progR) := by
   constructor <;> simp [init, inBody]
 
 /-! ### proof automation shared by the preservation lemmas -/
@@ -149,6 +178,7 @@ macro_rules
   | `(tactic| os_close $a) => `(tactic| (
   dsimp only
   first
+  | assumption
   | (intro b
      by_cases hb : b = $a
      · (try subst hb); os_fin
